@@ -57,7 +57,7 @@ func (S) Info() scen.Info {
 			"goroutine scheduling":   "stub: single walker task under the seeded scheduler",
 		},
 		QuickUnits: 2500, ThoroughUnits: 150000, QuickSecs: 240, ThoroughSecs: 1200,
-		ProbeKeys: []string{"probe.walk_repeated_with_same_config", "probe.walklocal_visitor_skipme_cut", "probe.focus_nodebudget_cut", "probe.focus_linkbudget_cut", "probe.transform_once_cut", "probe.transform_linkbudget_cut", "probe.transform_skip_cut", "probe.budget_cut_mid_block", "probe.linkbudget_cut", "probe.startat_inside_linked_block", "probe.startat_skipped_load", "probe.once_pruned", "probe.skipme_pruned", "probe.resume_concat_checked", "probe.w0_ended_in_error", "probe.repeated_link", "probe.matching_walk", "probe.transform_budget_cut", "probe.walklocal_budget_cut"},
+		ProbeKeys: []string{"probe.adl_reifier_invoked", "probe.walk_repeated_with_same_config", "probe.walklocal_visitor_skipme_cut", "probe.focus_nodebudget_cut", "probe.focus_linkbudget_cut", "probe.transform_once_cut", "probe.transform_linkbudget_cut", "probe.transform_skip_cut", "probe.budget_cut_mid_block", "probe.linkbudget_cut", "probe.startat_inside_linked_block", "probe.startat_skipped_load", "probe.once_pruned", "probe.skipme_pruned", "probe.resume_concat_checked", "probe.w0_ended_in_error", "probe.repeated_link", "probe.matching_walk", "probe.transform_budget_cut", "probe.walklocal_budget_cut"},
 		EventsKey: "events",
 	}
 }
@@ -330,6 +330,16 @@ func (S) RunTape(t *sim.Tape, st *sim.Stats, keepLog bool) *sim.Outcome {
 	// selector: regenerate until one compiles (bounded)
 	ssb := builder.NewSelectorSpecBuilder(basicnode.Prototype.Any)
 	var spec builder.SelectorSpec
+	// an ADL the link system knows (the identity view: the node as it is): selectors may name it in
+	// interpret-as clauses; reification is one more step of the walk, not one more visit
+	gen.InterpretAs = ""
+	if t.Pct(30, "cfg.knownreifier") {
+		w.lsys.KnownReifiers = map[string]linking.NodeReifier{"asis": func(_ linking.LinkContext, n datamodel.Node, _ *linking.LinkSystem) (datamodel.Node, error) {
+			st.Inc("probe.adl_reifier_invoked")
+			return n, nil
+		}}
+		gen.InterpretAs = "asis"
+	}
 	gen.FieldHints = nil
 	if g.Root.K == model.Map {
 		gen.FieldHints = g.Root.Keys
